@@ -801,6 +801,8 @@ def sections(tier):
         secs.append((f"chunks-{i}-{kind}", "checks.c20", "sec_chunks", kw))
     # other boundary modes of map_overlap: constant padding (0 is falsy!), reflection, one mode per axis
     bnd = [("const0", 0), ("reflect", "reflect"), ("per-axis", {0: 0, 1: "nearest", 2: "reflect"})]
+    # NOT covered: a per-axis spec that mixes "none" with padding modes (e.g. ("none", "nearest", "nearest")): the block-origin model of this section
+    # disagrees with dask there on the unchanged tree (harness error, not a violation), so such specs are outside the claim (seeded change C20_12 is missed)
     if not q:
         bnd += [("const0.0-tuple", (0.0, "nearest", 0.0)), ("const7", 7.0)]
     for name, b in bnd:
